@@ -165,3 +165,7 @@ fn c10_scheduler_run_reports_errors_and_waits_when_full() {
 	kani::cover!(!full, "w:decoder-fails");
 	std::mem::forget(p);
 }
+
+// (DecodeScheduler::new itself - the 16384-slot ring - does not get through symbolic execution in 900 s: the base case of the
+// induction, 'one silent previous frame is buffered, the transport stands at the start, the decoder where its seek landed', is
+// NOT decided; it is read off the 20 lines of DecodeScheduler::new.)
